@@ -466,7 +466,7 @@ package core
 //@   loop 1 invariant [count] len(r.regions) == btlen[pre(r.tree.tree)] + (len(overlaps) - 1 - rangeindex)
 //@   loop 1 invariant [map-values-ok] wfMapVals(r)
 //@   loop 1 invariant [mapped-are-indexed-or-pending] forall id uint64 :: {inTree(r, r.regions[id])} in(r.regions, id) ==> inTree(r, r.regions[id]) || (rangeindex < uf("indexOf", overlaps, r.regions[id]) && uf("indexOf", overlaps, r.regions[id]) < len(overlaps) && overlaps[uf("indexOf", overlaps, r.regions[id])] == r.regions[id].region)
-//@   loop 1 invariant [displaced-unmapped-or-pending] forall x *regionItem :: {old(inTree(r, x))} old(inTree(r, x)) && old(x.region.meta.Id) != region.meta.Id && ovl(old(x.region), region) ==> !in(r.regions, old(x.region.meta.Id)) || rangeindex < uf("indexOf", overlaps, x)
+//@   loop 1 invariant [displaced-unmapped-or-pending] use(inv#1, post:RemoveRegion#1, requires) forall x *regionItem :: {old(inTree(r, x))} old(inTree(r, x)) && old(x.region.meta.Id) != region.meta.Id && ovl(old(x.region), region) ==> !in(r.regions, old(x.region.meta.Id)) || rangeindex < uf("indexOf", overlaps, x)
 //@   ensures [wf-items] itemsOK(r.tree.tree)
 //@   ensures [as-many-indexed-as-mapped] countOK(r)
 //@   ensures [wf-sep] sepRI(r)
